@@ -63,7 +63,11 @@ func writesThrough(p *Prog, fn *ssa.Function, idx int, depth int, chain string, 
 	}
 	visiting[key] = true
 	defer delete(visiting, key)
-	root := fn.Params[idx]
+	return writesThroughRoot(p, fn, fn.Params[idx], depth, chain, visiting)
+}
+
+// writesThroughRoot: the same for any value of fn (a call result, a load) as the root of the memory that must not be written.
+func writesThroughRoot(p *Prog, fn *ssa.Function, root ssa.Value, depth int, chain string, visiting map[string]bool) []msgWrite {
 	if !isRefLike(root.Type()) {
 		// a by-value struct still shares its slices and maps with the original
 		if _, isStruct := root.Type().Underlying().(*types.Struct); !isStruct {
@@ -73,6 +77,9 @@ func writesThrough(p *Prog, fn *ssa.Function, idx int, depth int, chain string, 
 	// D: values that are references into the parameter's memory. byValue: struct values copied out of it (their reference-typed
 	// fields still point into it).
 	D := map[ssa.Value]bool{root: true}
+	// RS ⊆ D: slices over the root's memory that are SHORTER than what they alias (x[:0], x[:k], and what is appended onto
+	// those): appending onto one of them overwrites the elements behind it
+	RS := map[ssa.Value]bool{}
 	spill := map[*ssa.Alloc]bool{} // locals holding a by-value copy of (part of) the message
 	changed := true
 	derive := func(v ssa.Value) bool {
@@ -134,7 +141,7 @@ func writesThrough(p *Prog, fn *ssa.Function, idx int, depth int, chain string, 
 		case *ssa.Call:
 			// append onto a re-sliced part of a message slice returns a slice over the same elements
 			if bi, ok := x.Call.Value.(*ssa.Builtin); ok && bi.Name() == "append" && len(x.Call.Args) > 0 {
-				if sl, ok := x.Call.Args[0].(*ssa.Slice); ok && D[sl] && sl.High != nil {
+				if RS[x.Call.Args[0]] {
 					return true
 				}
 			}
@@ -170,6 +177,31 @@ func writesThrough(p *Prog, fn *ssa.Function, idx int, depth int, chain string, 
 						D[v] = true
 						changed = true
 					}
+					if D[v] && !RS[v] {
+						isRS := false
+						switch x := v.(type) {
+						case *ssa.Slice:
+							isRS = x.High != nil || RS[x.X]
+						case *ssa.Phi:
+							for _, e := range x.Edges {
+								if RS[e] {
+									isRS = true
+								}
+							}
+						case *ssa.Call:
+							if bi, ok := x.Call.Value.(*ssa.Builtin); ok && bi.Name() == "append" && len(x.Call.Args) > 0 && RS[x.Call.Args[0]] {
+								isRS = true
+							}
+						case *ssa.ChangeType:
+							isRS = RS[x.X]
+						case *ssa.MakeInterface:
+							isRS = RS[x.X]
+						}
+						if isRS {
+							RS[v] = true
+							changed = true
+						}
+					}
 					// load of a local that holds a reference into the message
 					if u, ok := v.(*ssa.UnOp); ok && u.Op == token.MUL && !D[v] {
 						if al, ok := u.X.(*ssa.Alloc); ok && spill[al] && isRefLike(u.Type()) {
@@ -204,7 +236,7 @@ func writesThrough(p *Prog, fn *ssa.Function, idx int, depth int, chain string, 
 				if bi, ok := cc.Value.(*ssa.Builtin); ok {
 					switch bi.Name() {
 					case "append":
-						if sl, ok := cc.Args[0].(*ssa.Slice); ok && D[sl] && sl.High != nil {
+						if RS[cc.Args[0]] {
 							add(in, "append onto a re-sliced part of one of its own slices (overwrites the elements behind it)")
 						}
 					case "copy":
